@@ -34,8 +34,8 @@ Inductive case :=
 | CToStr (x : fval) (str : bytes) (back : option fval)
 (* os.date('*t', t) = year month day hour min sec wday yday (isdst false); os.time of it = back *)
 | CDateT (t : Z) (flds : list Z) (isdst : bool) (back : Z)
-(* os.time(table) *)
-| CTime (tbl : dtable) (obs : Z)
+(* os.time(table); None: it raised *)
+| CTime (tbl : dtable) (obs : option Z)
 (* os.date('!'..fmt, t) *)
 | CStrf (t : Z) (fmt : bytes) (obs : bytes)
 (* `local v1, .., vn = L1, .., Ln  return <v, 1/v, tostring(v) for a numeral | v for a string>...`:
@@ -146,8 +146,8 @@ Definition check_impl (c : case) : bool :=
   | CDateT t flds isdst back =>
     let tb := os_date_t civil_of_unix t in
     zlist_eqb (date_fields tb) flds && Bool.eqb (date_isdst tb) isdst &&
-    (os_time unix_of_civil tb =? back)
-  | CTime tbl obs => os_time unix_of_civil tbl =? obs
+    opt_eqb Z.eqb (os_time unix_of_civil tb) (Some back)
+  | CTime tbl obs => opt_eqb Z.eqb (os_time unix_of_civil tbl) obs
   | CStrf t fmt obs => beqb (strftime (civil_of_unix t) fmt) obs
   | CCtx lits obs => ctx_check true lits obs
   end.
@@ -206,7 +206,8 @@ Definition check_spec (c : case) : bool :=
     let cv := civil_of_unix t in
     (back =? t) &&
     zlist_eqb flds [c_year cv; c_month cv; c_day cv; c_hour cv; c_min cv; c_sec cv; c_wday cv + 1; c_yday cv]
-  | CTime _ _ => true
+  (* every field is read as tonumber reads it; year, month, day are required *)
+  | CTime tbl obs => opt_eqb Z.eqb obs (os_time unix_of_civil tbl)
   | CStrf t fmt obs => beqb obs (flat_map (render_piece (civil_of_unix t)) (parse_fmt fmt))
   | CCtx lits obs => ctx_check false lits obs   (* the grammar's value, literal by literal *)
   end.
